@@ -155,7 +155,7 @@ func OptionParametersList(params ...uint8) DHCPOpt {
 
 func OptionIPAddressLeaseDuration(d time.Duration) DHCPOpt {
 	b := make([]byte, 4)
-	setU32Int(b, uint32(d.Seconds()))
+	setU32Int(b, uint32(d/time.Second))
 	return DHCPOpt{Option: OptIPAddressLeaseDuration, Data: b}
 }
 
